@@ -313,6 +313,8 @@ class Mini:
             v = self.expr(e.value)
             if isinstance(v, SimpleNamespace) and hasattr(v, e.attr):
                 return getattr(v, e.attr)
+            if isinstance(v, tuple) and e.attr in getattr(v, "_fields", ()):
+                return getattr(v, e.attr)          # a named tuple the rule's model supplied
             raise Unsupported(f"attribute .{e.attr}")
         if isinstance(e, (ast.List, ast.Tuple)):
             out: List[Any] = []
